@@ -285,6 +285,13 @@ func twoAPIKeys(d *dg.Design, r *vh.RNG) (mref, bool) {
 	return x, true
 }
 
+func fieldsOf(a *dg.Attr) []*dg.Field {
+	if a == nil || a.T.Kind != "object" {
+		return nil
+	}
+	return a.T.Attrs
+}
+
 func firstResponse(h *dg.HTTPMap) *dg.Response {
 	if len(h.Responses) == 0 {
 		h.Responses = append(h.Responses, dg.Response{Status: 200})
@@ -339,6 +346,86 @@ var mutators = map[string]mutator{
 			x.m.HTTP.Routes[i].Path += "/{" + ghost + "}"
 		}
 		return &Mutation{Kind: "dangling_path", Where: where(x), Name: ghost, Covered: true, Expect: "reject"}
+	},
+	// a wildcard in the SERVICE or API base path that the payloads do not have
+	"dangling_base_path": func(d *dg.Design, r *vh.RNG) *Mutation {
+		usable := func(s *dg.Service) bool {
+			n := 0
+			for _, m := range s.Methods {
+				if m.HTTP == nil {
+					continue
+				}
+				if m.Payload != nil && !isObjAttr(d, m.Payload) {
+					return false // primitive payloads take one path parameter as the payload itself
+				}
+				for _, rt := range m.HTTP.Routes {
+					if len(rt.Path) > 1 && rt.Path[:2] == "//" {
+						return false
+					}
+				}
+				if isObjAttr(d, m.Payload) {
+					n++
+				}
+			}
+			return n > 0
+		}
+		if r.Chance(1, 3) {
+			for _, s := range d.Services {
+				if !usable(s) {
+					return nil
+				}
+			}
+			d.BasePath += "/{" + ghost + "}"
+			return &Mutation{Kind: "dangling_base_path", Where: "api", Name: ghost, Covered: true, Expect: "reject"}
+		}
+		var ss []*dg.Service
+		for _, s := range d.Services {
+			if usable(s) {
+				ss = append(ss, s)
+			}
+		}
+		if len(ss) == 0 {
+			return nil
+		}
+		s := ss[r.Intn(len(ss))]
+		s.BasePath += "/{" + ghost + "}"
+		return &Mutation{Kind: "dangling_base_path", Where: "service " + s.Name, Name: ghost, Covered: true, Expect: "reject"}
+	},
+	// ... and the valid counterpart: every payload of the service has the attribute
+	"base_path_param_valid": func(d *dg.Design, r *vh.RNG) *Mutation {
+		var ss []*dg.Service
+		for _, s := range d.Services {
+			ok := len(s.Files) == 0
+			n := 0
+			for _, m := range s.Methods {
+				if m.HTTP == nil {
+					continue
+				}
+				n++
+				if m.Payload == nil || m.Payload.T.Kind != "object" || len(m.Payload.T.Attrs) == 0 {
+					ok = false
+				}
+				for _, f := range fieldsOf(m.Payload) {
+					if f.Name == "tenant" {
+						ok = false
+					}
+				}
+			}
+			if ok && n > 0 {
+				ss = append(ss, s)
+			}
+		}
+		if len(ss) == 0 {
+			return nil
+		}
+		s := ss[r.Intn(len(ss))]
+		s.BasePath += "/t/{tenant}"
+		for _, m := range s.Methods {
+			if m.HTTP != nil {
+				m.Payload.T.Attrs = append(m.Payload.T.Attrs, dg.Req("tenant", dg.Prim("String")))
+			}
+		}
+		return &Mutation{Kind: "base_path_param_valid", Where: "service " + s.Name, Name: "tenant", Covered: true, Expect: "accept"}
 	},
 	"dangling_body_name": func(d *dg.Design, r *vh.RNG) *Mutation {
 		x, ok := pickM(r, httpObjPayload(d))
@@ -696,6 +783,24 @@ var mutators = map[string]mutator{
 		x.m.HTTP.Headers = append(x.m.HTTP.Headers, dg.MapEntry{Attr: "key_b", Wire: "X-Key-B"})
 		return &Mutation{Kind: "apikey_other_scheme", Where: where(x), Name: "ak_a", Covered: true, Expect: "reject"}
 	},
+	// both schemes are required (one Security(a, b) or two Security calls) and the payload
+	// only carries the key of the first, or only of the second
+	"apikey_one_of_two_missing": func(d *dg.Design, r *vh.RNG) *Mutation {
+		x, ok := twoAPIKeys(d, r)
+		if !ok {
+			return nil
+		}
+		if r.Bool() {
+			x.m.Security = []dg.Requirement{{Schemes: []string{"ak_a", "ak_b"}}}
+		} else {
+			x.m.Security = []dg.Requirement{{Schemes: []string{"ak_a"}}, {Schemes: []string{"ak_b"}}}
+		}
+		have := vh.Pick(r, []string{"ak_a", "ak_b"})
+		f := "key_" + have[3:]
+		x.m.Payload.T.Attrs = append(x.m.Payload.T.Attrs, &dg.Field{Name: f, A: dg.Attr{T: dg.Prim("String"), Sec: &dg.SecAttrKind{Fn: "APIKey", Scheme: have}}})
+		x.m.HTTP.Headers = append(x.m.HTTP.Headers, dg.MapEntry{Attr: f, Wire: "X-Key-" + have[3:]})
+		return &Mutation{Kind: "apikey_one_of_two_missing", Where: where(x), Name: "only the key of " + have, Covered: true, Expect: "reject"}
+	},
 	// ... and the valid counterparts: one or both keys, each for its own scheme
 	"apikey_two_schemes_valid": func(d *dg.Design, r *vh.RNG) *Mutation {
 		x, ok := twoAPIKeys(d, r)
@@ -894,7 +999,7 @@ var mutators = map[string]mutator{
 			return nil
 		}
 		t.Base.Attrs = append(t.Base.Attrs, dg.F("kids", dg.ArrayOf(dg.A(dg.Ref(t.Name)))))
-		return &Mutation{Kind: "recursive_array", Where: t.Name, Expect: "any"}
+		return &Mutation{Kind: "recursive_array", Where: t.Name + useRecursive(d, r, t.Name), Expect: "any"}
 	},
 	"recursive_map": func(d *dg.Design, r *vh.RNG) *Mutation {
 		t := firstObjType(d)
@@ -902,7 +1007,38 @@ var mutators = map[string]mutator{
 			return nil
 		}
 		t.Base.Attrs = append(t.Base.Attrs, dg.F("by_name", dg.MapOf(dg.A(dg.Prim("String")), dg.A(dg.Ref(t.Name)))))
-		return &Mutation{Kind: "recursive_map", Where: t.Name, Expect: "any"}
+		return &Mutation{Kind: "recursive_map", Where: t.Name + useRecursive(d, r, t.Name), Expect: "any"}
+	},
+	// recursion THROUGH A MAP KEY: T { by_key: MapOf(T, Int) }, a key that is an array of T,
+	// A keyed by B while B refers to A
+	"recursive_map_key": func(d *dg.Design, r *vh.RNG) *Mutation {
+		var objs []*dg.UserType
+		for _, t := range d.Types {
+			if t.Base.Kind == "object" && !t.Result {
+				objs = append(objs, t)
+			}
+		}
+		if len(objs) == 0 {
+			return nil
+		}
+		a := objs[r.Intn(len(objs))]
+		desc := ""
+		switch r.Intn(3) {
+		case 0:
+			a.Base.Attrs = append(a.Base.Attrs, dg.F("by_key", dg.MapOf(dg.A(dg.Ref(a.Name)), dg.A(dg.Prim("Int")))))
+			desc = a.Name + " keyed by itself"
+		case 1:
+			a.Base.Attrs = append(a.Base.Attrs, dg.F("by_key", dg.MapOf(dg.A(dg.ArrayOf(dg.A(dg.Ref(a.Name)))), dg.A(dg.Prim("String")))))
+			desc = a.Name + " keyed by an array of itself"
+		default:
+			b := objs[r.Intn(len(objs))]
+			a.Base.Attrs = append(a.Base.Attrs, dg.F("by_key", dg.MapOf(dg.A(dg.Ref(b.Name)), dg.A(dg.Prim("String")))))
+			if b != a {
+				b.Base.Attrs = append(b.Base.Attrs, dg.F("back", dg.Ref(a.Name)))
+			}
+			desc = a.Name + " keyed by " + b.Name + " which refers back"
+		}
+		return &Mutation{Kind: "recursive_map_key", Where: desc + useRecursive(d, r, a.Name), Expect: "any"}
 	},
 	"mutual_recursion": func(d *dg.Design, r *vh.RNG) *Mutation {
 		var objs []*dg.UserType
@@ -917,7 +1053,7 @@ var mutators = map[string]mutator{
 		a, b := objs[0], objs[1]
 		a.Base.Attrs = append(a.Base.Attrs, dg.Req("peer_b", dg.Ref(b.Name)))
 		b.Base.Attrs = append(b.Base.Attrs, dg.F("peer_a", dg.ArrayOf(dg.A(dg.Ref(a.Name)))))
-		return &Mutation{Kind: "mutual_recursion", Where: a.Name + "," + b.Name, Expect: "any"}
+		return &Mutation{Kind: "mutual_recursion", Where: a.Name + "," + b.Name + useRecursive(d, r, a.Name), Expect: "any"}
 	},
 	"reference_cycle": func(d *dg.Design, r *vh.RNG) *Mutation {
 		var objs []*dg.UserType
@@ -1028,6 +1164,12 @@ var mutators = map[string]mutator{
 				desc += " as error type"
 			}
 		}
+		if r.Chance(1, 4) {
+			if x, ok := pickM(r, methods(d, func(_ *dg.Service, m *dg.Method) bool { return m.Payload != nil })); ok {
+				x.m.GRPC = &dg.GRPCMap{}
+				desc += " (gRPC on " + where(x) + ")"
+			}
+		}
 		return &Mutation{Kind: "extend_cycle", Where: desc, Expect: "any"}
 	},
 	"self_reference": func(d *dg.Design, r *vh.RNG) *Mutation {
@@ -1058,6 +1200,47 @@ var mutators = map[string]mutator{
 
 // mutations that always run into a recorded finding (empty service names): drawn less often
 var rare = map[string]bool{"empty_names": true}
+
+// useRecursive makes sure some method works on the (recursive) type: a payload attribute,
+// the result, a streaming payload or an error of that type; one time in three the method
+// also gets a gRPC mapping (gRPC validation has its own traversals of the types).
+func useRecursive(d *dg.Design, r *vh.RNG, name string) string {
+	x, ok := pickM(r, methods(d, func(_ *dg.Service, m *dg.Method) bool {
+		return m.Payload != nil && m.Payload.T.Kind == "object" && len(m.Payload.T.Attrs) > 0
+	}))
+	if !ok {
+		return ""
+	}
+	desc := ""
+	switch r.Intn(4) {
+	case 0:
+		if x.m.Result == nil || x.m.Result.T.Kind == "object" {
+			res := dg.A(dg.Ref(name))
+			x.m.Result, x.m.ResultView = &res, ""
+			if x.m.HTTP != nil {
+				x.m.HTTP.Responses = nil
+			}
+			desc = ", result of " + where(x)
+			break
+		}
+		fallthrough
+	case 1:
+		t := dg.Ref(name)
+		x.m.Errors = append(x.m.Errors, dg.ErrorDef{Name: "rec_err", T: &t})
+		if x.m.HTTP != nil {
+			x.m.HTTP.Errors = append(x.m.HTTP.Errors, dg.ErrResponse{Name: "rec_err", R: dg.Response{Status: 409}})
+		}
+		desc = ", error type of " + where(x)
+	default:
+		x.m.Payload.T.Attrs = append(x.m.Payload.T.Attrs, dg.F("rec_use", dg.Ref(name)))
+		desc = ", in the payload of " + where(x)
+	}
+	if r.Chance(1, 3) {
+		x.m.GRPC = &dg.GRPCMap{}
+		desc += " (gRPC)"
+	}
+	return desc
+}
 
 func firstObjType(d *dg.Design) *dg.UserType {
 	for _, t := range d.Types {
